@@ -257,11 +257,17 @@ def _graph_variants() -> list:
     for sfx in ("", "@manual", "@graphs"):
         for g in (OBJ(SINK), ABSITER(TRIPLE)):
             out.append({"self": OBJ(f"{SS}:GraphStream{sfx}"), "graph": g})
+    # the rdflib integration: its encoder, an rdflib Graph as the graph's content
+    for sfx in ("@r", "@rmanual", "@rgraphs"):
+        out.append({"self": OBJ(f"{SS}:GraphStream{sfx}"), "graph": Sort("rgraph", False)})
     return out
 
 
 for _sfx, _flowcls in (("@manual", "ManualFrameFlow"), ("@graphs", "GraphsFrameFlow")):
     shape(f"{SS}:GraphStream{_sfx}", fields={**_stream_fields, "flow": OBJ(f"{FL}:{_flowcls}")}, ghost=dict(g_ns=INT))
+from .encode import RENC as _RENC  # noqa: E402
+for _sfx, _flowcls in (("@r", "BoundedFrameFlow"), ("@rmanual", "ManualFrameFlow"), ("@rgraphs", "GraphsFrameFlow")):
+    shape(f"{SS}:GraphStream{_sfx}", fields={**_stream_fields, "encoder": OBJ(_RENC), "flow": OBJ(f"{FL}:{_flowcls}")}, ghost=dict(g_ns=INT))
 
 
 @contract(f"{SS}:GraphStream.graph", serves=["C03", "C06", "C11", "C07"])
@@ -271,7 +277,7 @@ class _graph:
     params = {"self": OBJ(f"{SS}:GraphStream"), "graph_id": ADTS("gterm"), "graph": OBJ(SINK)}
     variants = _graph_variants()
     yields = MSG("RdfStreamFrame")
-    shards = 6          # one worker per variant
+    shards = 9          # one worker per variant
     modifies = GRAPH_MOD
     loops = {0: LoopSpec(invariant=lambda e: {"tables-well-formed": wf_te(e.self.encoder)},
                          after_each=lambda e: ({"pending-rows-below-frame-size": flow_len(e.self.flow) < e.self.flow.frame_size}
@@ -282,7 +288,9 @@ class _graph:
     # C07: with a flow that is not size-bounded a graph never produces a frame by itself
     def silent(e): return e.self.flow.cls.name not in BOUNDED
 
-    def requires(e): return And(wf_te(e.self.encoder), bounded_ok(e.self))
+    def requires(e):
+        from .encode import encoder_universe
+        return And(wf_te(e.self.encoder), bounded_ok(e.self), encoder_universe(e.self.encoder, [e.graph_id]))
     def raises(e): return MAY_REJECT
     def on_raise(e): return {"tables-still-well-formed": wf_te(e.self.encoder)}
 
